@@ -12,6 +12,7 @@ IsOtherExc(r) == r.t = "x"
 IsInt(r, v) == r.t = "i" /\ r.v = v
 IsBool(r, b) == r.t = "b" /\ r.v = (IF b THEN 1 ELSE 0)
 IsStr(r, codes) == r.t = "s" /\ r.v = codes
+IsLabel(r, w) == r.t = "s" /\ r.w = w
 IsTup(r, n) == r.t = "tup" /\ Len(r.v) = n
 \* numeric equality with the rational num/den, for int or float results
 NumEq(r, num, den) ==
